@@ -75,3 +75,10 @@ rotating_restart = dict(
     bounded=dict(bound='3 naming schemes x 2 backup limits x overwrite on/off x pairs of sequences of 1..3 (thorough: 1..4) statements of 2 sizes; one restart within the same day', form='b'),
     dropped=[], trusted=['g++ / libstdc++ / the file system execute the real sink'], min_obligations=1, timeout=1200)
 UNITS += [rotating_restart]
+backtrace_history = dict(
+    name='BT.history', primary='C18', props={'C18'}, kind='L', funcs=[], enforce=None,
+    desc='backtrace logging through the real pipeline (LOG_BACKTRACE / LOG_INFO / LOG_ERROR, flush_backtrace, init_backtrace with two capacities, a second logger) against a reference model, for every history of bounded length - the integration of level check, flush level, storage and re-initialisation that the contract units BS.* / BW.process_event cover function by function',
+    native=dict(cpp='backtrace_history.cpp', file='include/quill/backend/BackendWorker.h', function='BackendWorker::_process_transit_event (backtrace arms), BacktraceStorage::{store,process,set_capacity}, LoggerImpl::{init_backtrace,flush_backtrace}', defs_quick=['LEN=5'], defs_thorough=['LEN=6']),
+    bounded=dict(bound='every history of <= 5 (thorough: 6) actions over 8 action kinds, two fresh loggers per history', form='b'),
+    dropped=[], trusted=['g++ / libstdc++ / fmt execute the real frontend and backend'], min_obligations=1, timeout=1500)
+UNITS += [backtrace_history]
